@@ -68,10 +68,16 @@ def oracle_views(w, c, props, probe_extra=()):
     P = 'C08' if 'C08' in props else 'C02' if 'C02' in props else 'C01'
     keys = sorted(w.model)
     absent = sorted((w.ever - set(w.model)) | set(probe_extra) | {w.key(b'never stored \x00\x01')})
+    ask = keys + absent
+    w.view_round = getattr(w, 'view_round', 0) + 1
+    if w.view_round % 2 == 0:
+        # existence first: the listing below reloads the handle's index session and would hide a stale snapshot
+        has = c.has_objects(ask)
+        chk(P, has == [k in w.model for k in ask], 'has_objects (first query of the handle in this round) differs from the model',
+            ask=ask, got=has)
     listed = list(c.list_all_objects())
     chk(P, sorted(listed) == keys, 'list_all_objects differs from the model', listed=sorted(listed), model=keys)
     chk('C09' if 'C09' in props else P, len(listed) == len(set(listed)), 'list_all_objects reports a key twice')
-    ask = keys + absent
     has = c.has_objects(ask)
     chk(P, has == [k in w.model for k in ask], 'has_objects differs from the model', ask=ask, got=has)
     for k in ask:
@@ -172,6 +178,12 @@ def oracle_sizes(w, c):
         if m['type'].value == 'packed':
             chk('C10', m['pack_compressed'] == bool(comp) and m['pack_length'] == length and m['size'] == size,
                 f'get_object_meta({hk}) disagrees with the index: {m}')
+    bulk = dict(c.get_objects_meta([r[0] for r in idx], skip_if_missing=False))
+    for hk, comp, size, off, length, pid in idx:
+        m = bulk.get(hk)
+        chk('C10', m is not None and (m['type'].value != 'packed' or (m['pack_compressed'] == bool(comp) and m['pack_length'] == length
+                                                                       and m['size'] == size and m['pack_offset'] == off)),
+            f'bulk get_objects_meta of {hk} disagrees with the index: {m}')
     ts = c.get_total_size()
     chk('C10', ts.total_size_packed == sum(r[2] for r in idx), 'total_size_packed is not the sum of sizes')
     chk('C10', ts.total_size_packed_on_disk == sum(r[4] for r in idx), 'total_size_packed_on_disk is not the sum of lengths')
@@ -472,9 +484,10 @@ def oracle_bulk(w, c, rng):
     """C16: bulk == map(single) over distinct keys, for request sizes on both sides of the (lowered) thresholds."""
     keys = sorted(w.model)
     absent = [w.key(b'missing %d' % i) for i in range(12)]
-    for n in (0, 1, 2, 3, 4, 5, 6, 7, 11, 12, 13, 25):
-        base = [rng.choice(keys) for _ in range(n)] if keys else []
-        req = base + rng.sample(absent, min(len(absent), rng.randrange(0, 4)))
+    for n in (0, 1, 2, 3, 4, 5, 6, 7, 11, 12, 13, 25, -1, -2):
+        base = [rng.choice(keys) for _ in range(abs(n) * 3 if n < 0 else n)] if keys else []
+        # n < 0: many missing keys together with present ones (the number of not-found keys crosses the thresholds too)
+        req = base + rng.sample(absent, min(len(absent), rng.randrange(7, 13) if n < 0 else rng.randrange(0, 4)))
         if req and rng.random() < .5:
             req += [rng.choice(req)]
         rng.shuffle(req)
@@ -514,6 +527,7 @@ WEIGHTS = {
     'C14': {'add_loose': 2, 'add_pack': 2, 'pack_all_loose': 1, 'import': 6, 'reopen': .5},
     'C11': {'add_loose': 4, 'add_pack': 4, 'pack_all_loose': 3, 'clean': 1, 'delete': 4, 'repack': 3, 'loosen': 1},
     'C10': {'add_loose': 5, 'add_pack': 3, 'pack_all_loose': 4, 'clean': 2, 'repack': 4, 'reopen': .5},
+    'C16': {'add_loose': 9, 'add_pack': 3, 'pack_all_loose': 4, 'clean': 4, 'import': 1, 'delete': 1, 'repack': .5},
 }
 
 
@@ -544,7 +558,7 @@ def run_history(prop, seed, index, nsteps, big=False, stop_after=None, record=No
     ACTIVE.clear()
     ACTIVE.update({prop, 'C02'} if prop == 'C11' else {prop})
     ops = []
-    low = (prop in ('C16', 'C02', 'C09', 'C14') and index % 2 == 0)
+    low = (prop in ('C16', 'C02', 'C09', 'C14', 'C01', 'C10', 'C08', 'C03') and index % 2 == 0)
     desc = {'cfg': cfg, 'ops': ops, 'lowered_thresholds': low}
     if record is not None:
         record.update(desc)
